@@ -202,8 +202,10 @@ func (t *Tokenizer) tokenizeBuffer(buf []byte, last bool) {
 				switch t.mode[256] {
 				case 'n':
 					t.handleNum(off)
+					t.checkOnlyOne(off, b, depth)
 				case 't':
 					t.addToken(string(t.tmp))
+					t.checkOnlyOne(off, b, depth)
 				}
 			}
 			if t.exkey {
@@ -305,8 +307,10 @@ func (t *Tokenizer) tokenizeBuffer(buf []byte, last bool) {
 				switch t.mode[256] {
 				case 'n':
 					t.handleNum(off)
+					t.checkOnlyOne(off, b, depth)
 				case 't':
 					t.addToken(string(t.tmp))
+					t.checkOnlyOne(off, b, depth)
 				}
 			}
 			if t.exkey {
@@ -444,8 +448,10 @@ func (t *Tokenizer) tokenizeBuffer(buf []byte, last bool) {
 				switch t.mode[256] {
 				case 'n':
 					t.handleNum(off)
+					t.checkOnlyOne(off, b, depth)
 				case 't':
 					t.addToken(string(t.tmp))
+					t.checkOnlyOne(off, b, depth)
 				}
 			}
 			t.mode = commentStartMap
@@ -502,6 +508,14 @@ func (t *Tokenizer) addToken(s string) {
 			t.handler.String(s)
 		}
 		t.exkey = 0 < len(t.starts) && t.starts[len(t.starts)-1] == objectStart
+	}
+}
+
+// checkOnlyOne reports a byte that starts another document right after a
+// top level number or token when only one document is allowed.
+func (t *Tokenizer) checkOnlyOne(off int, b byte, depth int) {
+	if depth == 0 && t.OnlyOne {
+		t.newError(off, "extra characters after close, '%c'", b)
 	}
 }
 
